@@ -1691,17 +1691,22 @@ func (self *Node) removePair(i int) {
 	if last == nil {
 		return
 	}
+	// drop the key from the hash index as well, a stale entry outlives the slot
+	if s := (*linkedPairs)(self.p); s.index != nil {
+		delete(s.index, last.hash)
+	}
 	*last = Pair{}
 	// NOTICE: should be consistent with linkedPair.Len()
 	self.l--
 }
 
 func (self *Node) removePairAt(i int) {
-	p := (*linkedPairs)(self.p).At(i)
-	if p == nil {
+	s := (*linkedPairs)(self.p)
+	if s.At(i) == nil {
 		return
 	}
-	*p = Pair{}
+	// Unset also drops the key from the hash index
+	s.Unset(i)
 	// NOTICE: should be consistent with linkedPair.Len()
 	self.l--
 }
